@@ -58,6 +58,7 @@ func (m msg6) first(code uint16) []byte {
 }
 
 type ex6Rx struct {
+	trig    int // type of the client message the server was answering (0: unknown)
 	seq     int
 	doneSeq int
 	t       time.Duration
@@ -104,6 +105,9 @@ type ex6State struct {
 	tries          int
 	stall          bool
 	xidSol, xidReq uint32
+	forced         bool // the harness chooses the transaction ids (else: the library's own random ones)
+	xnames         map[uint32]string
+	trig           map[int]int // server handler task -> type of the client message it is answering
 
 	cconn   *Conn
 	servers []*ex6Server
@@ -150,6 +154,9 @@ func (st *ex6State) mods() []dhcpv6.Modifier {
 	// One id per message type, as without a modifier SOLICIT and REQUEST ids differ.
 	// (No client-id modifier: it would override the advertised client id in the REQUEST.
 	// The DUID-LLT time NewSolicit stamps comes from the bubble clock and is deterministic.)
+	if !st.forced {
+		return nil
+	}
 	return []dhcpv6.Modifier{func(d dhcpv6.DHCPv6) {
 		if m, ok := d.(*dhcpv6.Message); ok {
 			switch m.MessageType {
@@ -166,6 +173,9 @@ func (st *ex6State) start() {
 	s, t := st.s, st.tape
 	st.T = pick(t, ms(50), ms(200))
 	st.tries = 1 + t.Weighted(2, 3, 2)
+	st.forced = t.Coin(1, 2)
+	st.xnames = map[uint32]string{}
+	st.trig = map[int]int{}
 	st.xidSol = 0x5a0000 | uint32(t.Choose(4))
 	st.xidReq = 0x5b0000 | uint32(t.Choose(4))
 	if t.Coin(1, 10) {
@@ -180,7 +190,7 @@ func (st *ex6State) start() {
 		st.net = NewNet(s)
 		st.cconn = NewConn(s, "cconn", &net.UDPAddr{IP: net.ParseIP("fe80::1"), Port: 546})
 		st.cconn.OnWrite = func(b []byte, to net.Addr) { st.clientTx(b) }
-		st.cconn.OnRead = func(d dgram, n int) { st.clientRx(append([]byte(nil), d.b[:n]...)) }
+		st.cconn.OnRead = func(d dgram, n int) { st.clientRx(append([]byte(nil), d.b[:n]...), d.serial) }
 		st.cconn.OnReadEnter = func() {
 			if n := len(st.rx); n > 0 && st.rx[n-1].doneSeq == 0 {
 				st.rx[n-1].doneSeq = s.Seq()
@@ -226,6 +236,17 @@ func (st *ex6State) start() {
 		sj.Wait()
 		st.net.Stop(true)
 	})
+}
+
+// xn renders a transaction id by order of first appearance, so that the event
+// log does not depend on the library's random ids.
+func (st *ex6State) xn(x uint32) string {
+	n, ok := st.xnames[x]
+	if !ok {
+		n = fmt.Sprintf("x%d", len(st.xnames))
+		st.xnames[x] = n
+	}
+	return n
 }
 
 func (st *ex6State) op(kind string, fn func(o *ex6Op)) *ex6Op {
@@ -290,7 +311,7 @@ func (st *ex6State) clientTx(b []byte) {
 	s, t := st.s, st.tape
 	tx := &ex6Tx{t: s.Now(), raw: b}
 	tx.p, tx.ok = parseMsg6(b)
-	tx.seq = s.Ev("tx", -1, int64(tx.p.typ), fmt.Sprintf("xid=%06x", tx.p.xid), nil)
+	tx.seq = s.Ev("tx", -1, int64(tx.p.typ), "xid="+st.xn(tx.p.xid), nil)
 	if st.cur != nil {
 		st.cur.txs = append(st.cur.txs, tx)
 	} else {
@@ -311,27 +332,28 @@ func (st *ex6State) clientTx(b []byte) {
 
 func (st *ex6State) toClient(sv *ex6Server, b []byte) {
 	s, t := st.s, st.tape
+	trig := st.trig[s.CurTask()]
 	s.Ev("server.tx", sv.id, int64(len(b)), "", nil)
 	for c := st.faultCopies(); c > 0; c-- {
 		pb := st.maybeCorrupt(b)
 		d := pick(t, 0, 0, ms(1), ms(3), st.T/2, st.T-ms(1), st.T, st.T+ms(1), 2*st.T)
 		st.net.After(d, func() {
 			s.Stimulus()
-			st.cconn.Deliver(dgram{b: pb, from: sv.conn.Local, tag: fmt.Sprintf("s%d", sv.id)})
+			st.cconn.Deliver(dgram{b: pb, from: sv.conn.Local, tag: fmt.Sprintf("s%d", sv.id), serial: trig})
 		})
 	}
 }
 
-func (st *ex6State) clientRx(b []byte) {
+func (st *ex6State) clientRx(b []byte, trig int) {
 	s := st.s
-	r := &ex6Rx{t: s.Now(), bytes: b}
+	r := &ex6Rx{t: s.Now(), bytes: b, trig: trig}
 	if m, err := dhcpv6.MessageFromBytes(append([]byte(nil), b...)); err == nil {
 		r.m = m
 		r.canon = m.ToBytes()
 	}
 	desc := "undecodable"
 	if r.m != nil {
-		desc = fmt.Sprintf("xid=%s type=%s", r.m.TransactionID, r.m.MessageType)
+		desc = fmt.Sprintf("xid=%s type=%s", st.xn(xidOf6(r.m)), r.m.MessageType)
 	}
 	r.seq = s.Ev("rx", -1, int64(len(b)), desc, nil)
 	st.rx = append(st.rx, r)
@@ -344,7 +366,8 @@ func (st *ex6State) handler(sv *ex6Server) server6.Handler {
 		if !ok {
 			return
 		}
-		s.Ev("server.rx", sv.id, int64(m.MessageType), fmt.Sprintf("xid=%s", m.TransactionID), nil)
+		s.Ev("server.rx", sv.id, int64(m.MessageType), "xid="+st.xn(xidOf6(m)), nil)
+		st.trig[s.CurTask()] = int(m.MessageType)
 		if m.MessageType != dhcpv6.MessageTypeSolicit && m.MessageType != dhcpv6.MessageTypeRequest {
 			return
 		}
@@ -439,14 +462,15 @@ func lastTxBefore6(txs []*ex6Tx, seq int) *ex6Tx {
 }
 
 // checkPairing: the message a phase returned is a delivered datagram bearing the
-// phase's transaction id, acceptable to the phase, and the first such of its try.
-func (st *ex6State) checkPairing(v *vio, o *ex6Op, name string, got *dhcpv6.Message, xid uint32, txs []*ex6Tx, acceptable func(*dhcpv6.Message) bool, before int) {
+// phase's transaction id, acceptable to the phase, the first such of its try, and
+// (reqPhase) not a server's answer to the SOLICIT.
+func (st *ex6State) checkPairing(v *vio, o *ex6Op, name string, got *dhcpv6.Message, xid uint32, txs []*ex6Tx, acceptable func(*dhcpv6.Message) bool, before int, reqPhase bool, solXid uint32) {
 	if got == nil {
 		v.add("Y-nil", "%s: returned (nil, nil)", name)
 		return
 	}
 	if xidOf6(got) != xid {
-		v.add("Y-xid", "%s: returned a message with transaction id %06x, want %06x", name, xidOf6(got), xid)
+		v.add("Y-xid", "%s: returned a message with transaction id %s, want %s", name, st.xn(xidOf6(got)), st.xn(xid))
 	}
 	if !acceptable(got) {
 		v.add("Y-type", "%s: returned a %s, which this call must not accept", name, got.MessageType)
@@ -455,6 +479,11 @@ func (st *ex6State) checkPairing(v *vio, o *ex6Op, name string, got *dhcpv6.Mess
 	if src == nil {
 		v.add("Y-provenance", "%s: the returned %s is not the decoding of a datagram delivered during the call", name, got.MessageType)
 		return
+	}
+	if reqPhase && src.trig == int(dhcpv6.MessageTypeSolicit) && !(st.forced && st.xidReq == st.xidSol) {
+		// Unless the harness itself made the two ids equal, an answer to the SOLICIT
+		// can only bear the REQUEST's id if the client reused the SOLICIT's id.
+		v.add("Y-mispaired", "%s: the REQUEST was completed by a server's answer to the SOLICIT (a %s delivered at #%d): REQUEST and SOLICIT share transaction id %s", name, got.MessageType, src.seq, st.xn(solXid))
 	}
 	tx := lastTxBefore6(txs, before)
 	if tx == nil {
@@ -484,8 +513,11 @@ func (st *ex6State) requestTxProblems(name string, adv *dhcpv6.Message, txs []*e
 		if p.typ != 3 {
 			continue
 		}
-		if p.xid != st.xidReq {
+		if st.forced && p.xid != st.xidReq {
 			add("Y-req-xid", "%s: REQUEST %d has transaction id %06x, want %06x", name, i+1, p.xid, st.xidReq)
+		}
+		if p.xid != txs[0].p.xid {
+			add("Y-req-xid-changed", "%s: REQUEST %d has another transaction id than REQUEST 1", name, i+1)
 		}
 		if cid != nil && !bytes.Equal(p.first(1), cid.ToBytes()) {
 			add("Y-req-clientid", "%s: REQUEST %d does not carry the advertised client id", name, i+1)
@@ -535,16 +567,36 @@ func isType6(ts ...dhcpv6.MessageType) func(*dhcpv6.Message) bool {
 	}
 }
 
+func anyType6(*dhcpv6.Message) bool { return true }
+
 func (st *ex6State) oracle(v *vio) {
+	var lastSolXid uint32
 	for i, o := range st.ops {
 		name := fmt.Sprintf("op %d (%s)", i, o.kind)
 		sol, req, other := splitTxs6(o)
 		if len(other) > 0 {
 			v.add("Y-extra-tx", "%s: transmitted %d message(s) that are neither SOLICIT nor REQUEST", name, len(other))
 		}
+		// the transaction ids this call used on the wire
+		var xs, xr uint32
+		if len(sol) > 0 {
+			xs = sol[0].p.xid
+			lastSolXid = xs
+		} else {
+			xs = lastSolXid
+		}
+		if len(req) > 0 {
+			xr = req[0].p.xid
+		}
 		for j, tx := range sol {
-			if tx.ok && tx.p.xid != st.xidSol {
+			if !tx.ok {
+				continue
+			}
+			if st.forced && tx.p.xid != st.xidSol {
 				v.add("Y-sol-xid", "%s: SOLICIT %d has transaction id %06x, want %06x", name, j+1, tx.p.xid, st.xidSol)
+			}
+			if tx.p.xid != xs {
+				v.add("Y-sol-xid-changed", "%s: SOLICIT %d has another transaction id than SOLICIT 1", name, j+1)
 			}
 		}
 		switch o.kind {
@@ -553,7 +605,7 @@ func (st *ex6State) oracle(v *vio) {
 				v.add("Y-extra-tx", "%s: Solicit transmitted a REQUEST", name)
 			}
 			if o.returned && o.err == nil {
-				st.checkPairing(v, o, name, o.ret, st.xidSol, sol, isType6(dhcpv6.MessageTypeAdvertise), o.retSeq)
+				st.checkPairing(v, o, name, o.ret, xs, sol, isType6(dhcpv6.MessageTypeAdvertise), o.retSeq, false, xs)
 			}
 		case "request":
 			if len(sol) > 0 {
@@ -563,7 +615,7 @@ func (st *ex6State) oracle(v *vio) {
 				st.checkRequestTx(v, name, o.adv, req)
 			}
 			if o.returned && o.err == nil {
-				st.checkPairing(v, o, name, o.ret, st.xidReq, req, func(*dhcpv6.Message) bool { return true }, o.retSeq)
+				st.checkPairing(v, o, name, o.ret, xr, req, anyType6, o.retSeq, true, xs)
 			}
 		case "rapid":
 			for j, tx := range sol {
@@ -577,7 +629,7 @@ func (st *ex6State) oracle(v *vio) {
 			if len(req) == 0 {
 				// completed (or failed) in the SOLICIT phase: a REPLY is returned directly
 				if o.err == nil {
-					st.checkPairing(v, o, name, o.ret, st.xidSol, sol, isType6(dhcpv6.MessageTypeReply), o.retSeq)
+					st.checkPairing(v, o, name, o.ret, xs, sol, isType6(dhcpv6.MessageTypeReply), o.retSeq, false, xs)
 				}
 				break
 			}
@@ -591,7 +643,7 @@ func (st *ex6State) oracle(v *vio) {
 			var inWin []*ex6Rx          // acceptable answers delivered after the last SOLICIT went out
 			var early []*dhcpv6.Message // ADVERTISEs the receive loop may still have had in hand at that point
 			for _, r := range st.rx {
-				if (r.doneSeq != 0 && r.doneSeq < o.invSeq) || r.seq > first.seq || r.m == nil || xidOf6(r.m) != st.xidSol {
+				if (r.doneSeq != 0 && r.doneSeq < o.invSeq) || r.seq > first.seq || r.m == nil || xidOf6(r.m) != xs {
 					continue
 				}
 				if r.m.MessageType != dhcpv6.MessageTypeAdvertise && r.m.MessageType != dhcpv6.MessageTypeReply {
@@ -632,7 +684,7 @@ func (st *ex6State) oracle(v *vio) {
 				}
 			}
 			if o.err == nil {
-				st.checkPairing(v, o, name, o.ret, st.xidReq, req, func(*dhcpv6.Message) bool { return true }, o.retSeq)
+				st.checkPairing(v, o, name, o.ret, xr, req, anyType6, o.retSeq, true, xs)
 			}
 		}
 	}
